@@ -439,12 +439,14 @@ class cleanup_functools_wrapper(object):
         else:
             raise NotImplementedError('This context manager is not reentrant')
         self.saved_attrs = {}
+        try:
+            own_attrs = vars(self.func)
+        except TypeError:
+            return
         for attr in self.attrs:
-            try:
-                self.saved_attrs[attr] = getattr(self.func, attr)
+            if attr in own_attrs:
+                self.saved_attrs[attr] = own_attrs[attr]
                 delattr(self.func, attr)
-            except AttributeError:
-                pass
 
     def __exit__(self, *exc):
         for attr, val in self.saved_attrs.items():
